@@ -125,6 +125,9 @@ def shape(e, roles=None, depth=20):
             lam = lambda_shape(getattr(e, "owner", None), e.fn, False, depth) if e.c.get("fn_local") else None
             return lam if lam is not None else "fn:%s" % nice(e.fn)
         if e.int is not None:
+            bits = {"u8": 8, "u16": 16, "u32": 32, "u64": 64, "usize": 64}.get(e.ty)
+            if bits and e.int == (1 << bits) - 1 and bits >= 16:
+                return "Not(0)"  # the all-ones sentinel, however it is spelt (`!0`, `u32::MAX`, a named constant)
             return str(e.int)
         sv = e.str_value()
         if sv is not None:
@@ -334,6 +337,9 @@ def const_value_shape(owner, c):
     if k is None:
         return None
     if k.get("int") is not None:
+        bits = {"u8": 8, "u16": 16, "u32": 32, "u64": 64, "usize": 64}.get(k.get("ty"))
+        if bits and k["int"] == (1 << bits) - 1:
+            return "Not(0)"  # the all-ones sentinel, however it is spelt (`!0`, `u32::MAX`, a named constant)
         return str(k["int"])
     ty = k.get("ty", "")
     a = k.get("alloc") or {}
